@@ -128,3 +128,93 @@ Theorem C01_text_roundtrip : forall d ld ot ts e, In (d, ld, ot) glue_dialects -
   exists toks, lexview ld std_uni (pp ot e) = Some toks /\ parse_expr d toks = Ok (e, []).
 Proof. exact text_roundtrip_generated. Qed.
 Print Assumptions C01_text_roundtrip.
+
+(** * The query core: SELECT / query skeleton (QueryCore.v, QueryCoreProofs.v).
+    Token-level model of Parser::parse_query / parse_query_body / parse_select / parse_select_item /
+    parse_table_factor / parse_optional_alias / the LIMIT-OFFSET loop and of the Display impls of
+    Query / SetExpr / Select / SelectItem / TableFactor / OrderByExpr, over the expression model above;
+    the dialect records [qd_<dialect>] are regenerated from the running crate (gen/QueryTables.v). *)
+Require Import SqlV.SetOps SqlV.QueryCore SqlV.QueryCoreProofs SqlVGen.QueryTables.
+
+(** generated side conditions: unknown level 0, AND below BETWEEN, the clause keywords are reserved
+    (FROM WHERE GROUP HAVING UNION EXCEPT INTERSECT ORDER LIMIT OFFSET as column alias, all but FROM
+    as table alias), and RESERVED_FOR_COLUMN_ALIAS lists only keywords other than NOT *)
+Lemma C01_query_tables_ok : forall d, In d QueryTables.all_qdialects -> dialect_ok d = true.
+Proof.
+  intros d H. cbn [QueryTables.all_qdialects In] in H.
+  repeat (destruct H as [H|H]; [subst d; vm_compute; reflexivity|]). destruct H.
+Qed.
+
+(** every dialect record extends the expression dialect of the same name *)
+Lemma C01_query_tables_base :
+  map base QueryTables.all_qdialects = map (fun x => snd (fst (fst x))) PrecTables.all_dialects.
+Proof. reflexivity. Qed.
+
+(** the round trip: for EVERY well-formed query tree of the fragment (not only parser outputs), every
+    dialect, every continuation that ends a query: parsing the printed tokens returns the tree and
+    the continuation, for every fuel from the nesting level up *)
+Theorem C01_query_roundtrip : forall d q rest fuel,
+  In d QueryTables.all_qdialects ->
+  qwf d q = true -> qfrag d (qtoks q ++ rest) = true -> ender rest = true -> (qlevel q <= fuel)%nat ->
+  parse_query d fuel (qtoks q ++ rest) = Ok (q, rest).
+Proof.
+  intros d q rest fuel Hin. exact (query_roundtrip d (C01_query_tables_ok d Hin) q rest fuel).
+Qed.
+Print Assumptions C01_query_roundtrip.
+
+Theorem C01_query_body_roundtrip : forall d b p rest fuel,
+  In d QueryTables.all_qdialects ->
+  bwf d b = true -> blspine_gtb p b = true -> headpow rest <= p -> brspine_geb (headpow rest) b = true ->
+  (5 <= hrank rest)%nat -> qfrag d (btoks b ++ rest) = true -> (blevel b <= fuel)%nat ->
+  parse_body d fuel p (btoks b ++ rest) = Ok (b, rest).
+Proof.
+  intros d b p rest fuel Hin. exact (body_roundtrip d (C01_query_tables_ok d Hin) b p rest fuel).
+Qed.
+Print Assumptions C01_query_body_roundtrip.
+
+Theorem C01_qtoks_injective : forall d q1 q2,
+  In d QueryTables.all_qdialects ->
+  qwf d q1 = true -> qwf d q2 = true -> qfrag d (qtoks q1) = true -> qtoks q1 = qtoks q2 -> q1 = q2.
+Proof.
+  intros d q1 q2 Hin. exact (qtoks_injective d (C01_query_tables_ok d Hin) q1 q2).
+Qed.
+Print Assumptions C01_qtoks_injective.
+
+(** the three dialect-dependent conjuncts of [qwf] / [qfrag] cannot be dropped: on a dialect record
+    with the switch on, the printed tokens of the tree do not parse back to it (computed witnesses;
+    none of these trees is an output of the parser in such a dialect) *)
+Definition qd_switch (tr un we : bool) : qdialect :=
+  {| base := d_generic; res_col := res_col_all; res_tab := res_tab_all; limit_comma := false;
+     limit_by := false; trailing := tr; proj_trailing := false; wild_except := we; wild_ilike := false;
+     select_as := false; unnest_table := un; hyphen_table := false; group_by_expr := false;
+     paren_tables := false |}.
+Definition qx n := QE (TAtom false n).
+Definition q_sel items from : query := Query (BSelect false items from None [] None) [] None None.
+
+(** trailing commas: a table after the first one named by a reserved word *)
+Example C01_query_trailing_name_refuted :
+  exists d q, dialect_ok d = true /\ qfrag d (qtoks q) = true /\
+    parse_query d (qlevel q) (qtoks q ++ []) <> Ok (q, []).
+Proof.
+  exists (qd_switch true false false),
+         (q_sel [IExpr (EAtom false 1)] [TTable (qx 2) None; TTable (QK KSelect) None]).
+  vm_compute. repeat split; try reflexivity. discriminate.
+Qed.
+(** FROM UNNEST where UNNEST(..) is a table factor *)
+Example C01_query_unnest_name_refuted :
+  exists d q, dialect_ok d = true /\ qfrag d (qtoks q) = true /\
+    parse_query d (qlevel q) (qtoks q ++ []) <> Ok (q, []).
+Proof.
+  exists (qd_switch false true false), (q_sel [IExpr (EAtom false 1)] [TTable (QE (TKw KUnnest)) None]).
+  vm_compute. repeat split; try reflexivity. discriminate.
+Qed.
+(** [SELECT * EXCEPT SELECT ..] where [* EXCEPT (..)] is a wildcard option *)
+Example C01_query_star_except_refuted :
+  exists d q, dialect_ok d = true /\ qwf d q = true /\
+    parse_query d (qlevel q) (qtoks q ++ []) <> Ok (q, []).
+Proof.
+  exists (qd_switch false false true),
+         (Query (BSetOp Except QNone (BSelect false [IWild] [] None [] None)
+                   (BSelect false [IExpr (EAtom false 1)] [] None [] None)) [] None None).
+  vm_compute. repeat split; try reflexivity. discriminate.
+Qed.
